@@ -1161,8 +1161,8 @@ def check_chunker_ranges(u):
     src, msk, o, c = _fn_body(file, u["fn"])
     body = msk[o:c]
     sites = [o + m.end() - 1 for m in re.finditer(r"ChunkedChanges\s*::\s*new\s*\(", body)]
-    if len(sites) < 2:
-        raise LostAnchor("handle_need: ChunkedChanges::new call sites not found")
+    if len(sites) < u.get("min_sites", 2):
+        raise LostAnchor("%s: ChunkedChanges::new call sites not found" % u["fn"])
     def norm(x):
         return re.sub(r"[\s\*&]", "", x)
     obligations, failures, samples = [], [], []
@@ -1208,6 +1208,16 @@ def check_chunker_ranges(u):
                 return norm(src[o + m2.start(1):o + m2.end(1)]) if m2 and re.fullmatch(r"\w+", x) else x
             if resolve(a) != resolve(lo) or resolve(b) != resolve(hi):
                 failures.append((name, _line(src, ao), "rows are selected with seq BETWEEN `%s` AND `%s` but the chunker is told `%s ..= %s`" % (lo, hi, args[1].strip(), args[2].strip())))
+        # the chunker's precondition "rows arrive in strictly increasing seq order" is the query's ORDER BY
+        name2 = "rows-reach-the-chunker-in-ascending-seq-order:site-%d" % (k + 1)
+        obligations.append(name2)
+        from .lex import iter_string_literals
+        sqls = [(p_, t_) for (p_, t_) in iter_string_literals(src) if o <= p_ < qo and re.search(r"\bSELECT\b", t_)]
+        if not sqls:
+            raise LostAnchor("no SELECT text before ChunkedChanges::new site %d" % (k + 1))
+        sql = sqls[-1][1]
+        if not re.search(r"ORDER\s+BY\s+seq(\s+ASC)?\s*$", sql.strip(), re.I):
+            failures.append((name2, _line(src, sqls[-1][0]), "the rows handed to the chunker are not selected `ORDER BY seq ASC`: its ranges are computed from the seq of the last row of a chunk"))
         samples.append("%s:%d site %d: rows %s..%s, chunker %s..%s" % (file, _line(src, ao), k + 1, lo, hi, a, b))
     return obligations, failures, samples
 
